@@ -37,7 +37,11 @@ RULE = ('Hypothesis-generated cases: 1-6 static-registration files forming an in
         'bindings + a per-file marker + stdlib '
         'imports, so bindings before and after every include collide with the included file; '
         'names are relative (f.gin, c14sub/f.gin, c14sub/deep/f.gin), absolute or '
-        'package-relative (c14pkg.sub/f.gin via a generated package on sys.path); every file is '
+        'package-relative (c14pkg.sub/f.gin via a generated regular package on sys.path; '
+        'c14ns.cfg/f.gin and c14ns/cfg/f.gin via a namespace package whose portions lie under '
+        'three sys.path entries, the file in any subset of the portions with different contents, '
+        'further portions holding no file, decoys one directory up and in a site that is not on '
+        'sys.path); every file is '
         'placed in 1-4 places of the grid {cwd, 1-3 registered locations (absolute or relative '
         'prefixes), one unregistered dir} x {open, package reader, 1-3 registered in-memory '
         'readers, one unregistered reader, entries the reader\'s own predicate denies}, each '
@@ -65,7 +69,11 @@ ASSUMPTIONS = [
     'when a statement on an unknown name raises, only the fact that it raises is asserted',
     'the same module is always imported in the same form (config_str picks one representative '
     'per module among differently aliased imports, which is outside this property)',
-    'packages that hold a generated file are regular packages (__init__.py). Plain directories '
+    'a namespace package (directories without __init__.py under several sys.path entries) is a '
+    'package on the Python path: a name relative to it denotes the file in the first portion, in '
+    'sys.path order, that holds it',
+    'apart from the namespace package c14ns.cfg, packages that hold a generated file are regular '
+    'packages (__init__.py). Plain directories '
     'on sys.path named like the directory part of a name (nspath=2), and the current directory '
     'on sys.path (nspath=1), are generated too, but such a namespace package never holds a file '
     'the file reader would not find first at the same location, so the expected result is the '
@@ -80,6 +88,7 @@ FLOORS = {
     'default-skip-with-unknown:config': 0.01, 'default-skip-with-unknown:file': 0.01,
     'default-skip-with-unknown:multi': 0.01, 'missing:abs-direct': 0.003,
     'nspath:namespace-dir-consulted': 0.05, 'selected:custom-reader': 0.05,
+    'ns:file-only-in-later-portion': 0.015, 'ns:several-portions-hold-file': 0.005,
     'selected:package-reader': 0.03, 'decoy-present': 0.10,
 }
 TECHNIQUE = ('model-based differential testing: Hypothesis-generated file trees and placements; '
@@ -125,6 +134,9 @@ SCOPES = ['', 's/']
 MODULES = [('math', None), ('json', 'c14j'), ('string', None), ('collections.abc', None),
            ('os.path', None), ('textwrap', 'c14tw'), ('fractions', None), ('bisect', None)]
 UNKNOWN_MODULE = 'c14_no_such_module'
+# A namespace package (no __init__.py anywhere) spread over three sys.path entries (tmp/site0..2).
+NS_PKG = 'c14ns.cfg'
+NS_SITES = 3
 MAX_LEVELS = 3
 
 # ----------------------------------------------------------------------------- strategy
@@ -149,7 +161,7 @@ def _file():
   place = st.tuples(st.integers(0, 4), st.integers(0, 5),
                     st.sampled_from([False, False, False, True])).map(list)
   return st.fixed_dictionaries({
-      'kind': st.sampled_from(['rel', 'rel', 'sub', 'sub', 'abs', 'pkg']),
+      'kind': st.sampled_from(['rel', 'rel', 'sub', 'sub', 'abs', 'pkg', 'ns']),
       'parent': st.sampled_from([0, 0, 1, 2, 3]),
       'at': _small,
       'stmts': st.integers(0, 6).flatmap(lambda k: st.lists(_stmt(), min_size=k, max_size=6)),
@@ -171,6 +183,7 @@ def strategy():
       'locs': st.lists(st.sampled_from(['abs', 'abs', 'rel']), min_size=1, max_size=3),
       'nread': st.integers(1, 3),
       'nspath': st.sampled_from([0, 0, 1, 2]),
+      'nsdirs': st.integers(0, 7),
       'files': files,
       'bindings': st.lists(_stmt().filter(lambda s: s[0] in 'bmuk'), min_size=0, max_size=3),
       'missing': st.one_of(st.none(), st.none(), st.none(), _small, _small),
@@ -224,6 +237,8 @@ class Model:
         self.names.append(('c14sub/deep/' if i % 2 else 'c14sub/') + base)
       elif kind == 'abs':
         self.names.append(f'{tmp}/abs/{base}')
+      elif kind == 'ns':
+        self.names.append(('c14ns/cfg/' if i % 2 else 'c14ns.cfg/') + base)
       else:
         self.names.append('c14pkg.sub/' + base)
     # tree: parents, levels, children
@@ -261,6 +276,8 @@ class Model:
   def _plan(self):
     self.disk = {}                 # absolute path -> (content, tag)
     self.sysf = {}                 # (dotted package, file name) -> (content, tag)
+    self.nsf = {}                  # (portion of NS_PKG, file name) -> (content, tag)
+    self.ns_decoys = {}            # (file name) -> content, in a site that is not on sys.path
     self.cust = [dict() for _ in range(self.nread + 1)]   # path -> (content, tag, allowed)
     self.decoys = 0
     nloc = len(self.prefixes) - 1
@@ -271,8 +288,22 @@ class Model:
       for loc, reader, denied in f['places']:
         l = loc % (nloc + 2)
         q = reader % (self.nread + 3)
-        if f['kind'] == 'pkg' and q in (0, 1):
+        if f['kind'] in ('pkg', 'ns') and q in (0, 1):
           q = 1 - q                # package-relative names: the package reader is the usual home
+        if f['kind'] == 'ns' and q == 1:
+          # a portion of the namespace package: the location coordinate selects the sys.path
+          # entry (3 = a site that is not on sys.path); only the bare name reaches the package
+          portion = loc % (NS_SITES + 1)
+          if i == self.missing:
+            portion = NS_SITES
+          tag = f'f{i}@ns{portion}'
+          content = self._render(i, tag)
+          if portion == NS_SITES:
+            self.ns_decoys.setdefault(name.rsplit('/', 1)[1], content)
+            self.decoys += 1
+          else:
+            self.nsf.setdefault((portion, name.rsplit('/', 1)[1]), (content, tag))
+          continue
         if i == self.missing:      # nobody may be able to read it: keep decoys only
           l = nloc + 1
           denied = True
@@ -299,7 +330,10 @@ class Model:
         tag = f'f{i}@fallback'
         content = self._render(i, tag)
         key = self._sys_key(name) if f['kind'] == 'pkg' else None
-        if key is not None:
+        if f['kind'] == 'ns':
+          # a later portion on purpose: the first portion exists but does not hold the file
+          self.nsf[(1 + i % 2, name.rsplit('/', 1)[1])] = (content, tag)
+        elif key is not None:
           self.sysf[key] = (content, tag)
         else:
           self.disk[self._abs(name)] = (content, tag)
@@ -321,6 +355,13 @@ class Model:
       return e
     if reader == 1:
       key = self._sys_key(path)
+      if key and key[0] == NS_PKG:
+        # namespace package: its portions in sys.path order, the first one holding the file
+        for portion in range(NS_SITES):
+          e = self.nsf.get((portion, key[1]))
+          if e is not None:
+            return e
+        return None
       return self.sysf.get(key) if key else None
     e = self.cust[reader - 2].get(path)
     return (e[0], e[1]) if e is not None and e[2] else None
@@ -425,6 +466,14 @@ class Model:
         self.labels.add('cand:cwd-first-sensitive')
     self.labels.add(['selected:file-reader', 'selected:package-reader'][r0] if r0 < 2
                     else 'selected:custom-reader')
+    if r0 == 1 and l0 == 0 and self.case['files'][i]['kind'] == 'ns':
+      fname = self.names[i].rsplit('/', 1)[1]
+      holders = [k for k in range(NS_SITES) if (k, fname) in self.nsf]
+      self.labels.add('ns:selected-from-namespace-package')
+      if holders and holders[0] > 0:
+        self.labels.add('ns:file-only-in-later-portion')
+      if len(holders) > 1:
+        self.labels.add('ns:several-portions-hold-file')
     if l0 > 0:
       self.labels.add('selected:added-location')
     self.labels.add('name:' + self.case['files'][i]['kind'])
@@ -513,6 +562,24 @@ def _materialise(m):
         with open(init, 'w') as f:
           f.write('')
     with open(d + '/' + fname, 'w') as f:
+      f.write(content)
+  # the namespace package: plain directories only; `nsdirs` adds portions that hold no file
+  nsdir = '/' + NS_PKG.replace('.', '/')
+  if any(f['kind'] == 'ns' for f in m.case['files']):
+    for k in range(NS_SITES):
+      os.makedirs(f'{m.tmp}/site{k}', exist_ok=True)
+      if (m.case.get('nsdirs', 7) >> k) & 1:
+        os.makedirs(f'{m.tmp}/site{k}{nsdir}', exist_ok=True)
+  for (k, fname), (content, _) in m.nsf.items():
+    os.makedirs(f'{m.tmp}/site{k}{nsdir}', exist_ok=True)
+    with open(f'{m.tmp}/site{k}{nsdir}/{fname}', 'w') as f:
+      f.write(content)
+    # decoy one directory level up in the same portion: never what the name denotes
+    with open(f'{m.tmp}/site{k}/c14ns/{fname}', 'w') as f:
+      f.write("c14_mark.f5 = 'decoy-wrong-directory'\nc14_a.x = 'decoy-wrong-directory'\n")
+  for fname, content in m.ns_decoys.items():
+    os.makedirs(f'{m.tmp}/siteX{nsdir}', exist_ok=True)
+    with open(f'{m.tmp}/siteX{nsdir}/{fname}', 'w') as f:
       f.write(content)
 
 
@@ -614,6 +681,7 @@ def _check(case, tmp):
   os.chdir(m.cwd)
   sys.path[:] = [p for p in sys.path if p not in ('', '.')]
   sys.path.insert(0, m.pydir)
+  sys.path[1:1] = [f'{m.tmp}/site{k}' for k in range(NS_SITES)]
   nspath = case.get('nspath', 0)
   if nspath == 1:
     # the current directory on the Python path (interactive session, `python script.py`): every
